@@ -391,6 +391,9 @@ def run(ctx):
         rule_p2(ctx, F)
         rule_g3(ctx, F)
         rule_p3(ctx, F)
+        # iterator_compare descends into a node built under ambiguity only because its parse state is NONE (shared with C01.P10)
+        import C01
+        C01.rule_fragile_state(ctx, F)
     return ctx.finish(
         "Gate rules over the Clang CFGs of get_changed_ranges.c/tree.c/parser.c: `IteratorMatches` (skip) is returned/taken only after every listed "
         "difference test failed and no included-range difference intersects; changed steps are recorded; TSRangeArray elements are appended only by the "
